@@ -384,6 +384,7 @@ func init() {
 		run := func(dj string, desc any) {
 			nt := false
 			for _, pol := range []mcrt.Policy{mcrt.Asc, mcrt.Desc} {
+				c.Begin(&Violation{Signature: "fatal crash of the process", Generator: "c14", Input: J{"doc": json.RawMessage(dj)}, Env: J{"policy": int(pol)}})
 				sig, what, nontrivial, outcome := c14Check(dj, pol)
 				if outcome == "" && sig == "" {
 					c.Count("not_loadable", 1)
